@@ -198,7 +198,7 @@ def model_traces(ctx, cases, tag):
 def run(ctx):
     core.check_prop_file(ctx, "Prop_C16.v")
     rnd = random.Random("C16-%d" % ctx.seed)
-    n = 80 if ctx.quick() else 1500
+    n = 200 if ctx.quick() else 1500
     cases = [Gen(random.Random(rnd.random())).scenario() for _ in range(n)]
     stats = {"evaluations": 0, "faults": 0, "unsat": 0, "probes": 0}
 
